@@ -35,7 +35,7 @@ class Check(BaseCheck):
     def cases(self):
         n, size = (24, "small") if self.quick else (400, "large")
         for c in gen.tet_stream(self.seed + 41, n, size):
-            yield dict(v=c["v"], t=c["t"], name=c["name"])
+            yield dict(v=c["v"], t=c["t"], name=c["name"], pres=c.get("pres"), vdtype=c.get("vdtype"))
         v5, t5 = gen.cube5()
         rng = gen.rng_for(self.seed, "c12")
         for r in range(2, 6):
@@ -59,6 +59,7 @@ class Check(BaseCheck):
         fails = []
         for c in self.cases():
             v, t = c["v"], c["t"]
+            gen.use(c)
             res = core.call(impl_all, v, t)
             stats.case(core.mesh_key(v, t), cls=["class:" + c["name"]], sample=dict(name=c["name"], nv=len(v), nt=len(t)))
             r0 = wire.Reply(drv.ask("tet_oriented %s %s" % (wire.verts(v), wire.elems(t))))
